@@ -282,8 +282,13 @@ def run_vh_parallel(jobs, timeout=3600):
         while pending and len(running) < maxpar:
             i, a = pending.pop(0)
             infl = os.path.join(tempfile.gettempdir(), f"vh-inflight-{os.getpid()}-{i}.json")
-            p = subprocess.Popen([VH] + list(a), stdout=subprocess.PIPE, stderr=subprocess.PIPE, text=True,
+            # output goes to files, not pipes: a RESULT line carrying a large case would fill a pipe nobody reads until the
+            # child exits, and the child would never exit
+            fo = tempfile.TemporaryFile(mode="w+", errors="replace")
+            fe = tempfile.TemporaryFile(mode="w+", errors="replace")
+            p = subprocess.Popen([VH] + list(a), stdout=fo, stderr=fe, text=True,
                                  env=dict(os.environ, VH_INFLIGHT=infl))
+            p._vh_files = (fo, fe)
             running.append((i, p, time.time()))
         still = []
         for i, p, t in running:
@@ -293,7 +298,13 @@ def run_vh_parallel(jobs, timeout=3600):
                     raise ToolError(f"harness job {jobs[i][0]} timed out")
                 still.append((i, p, t))
                 continue
-            out, err = p.communicate()
+            p.wait()
+            fo, fe = p._vh_files
+            fo.seek(0)
+            fe.seek(0)
+            out, err = fo.read(), fe.read()
+            fo.close()
+            fe.close()
             res = None
             for line in out.splitlines():
                 if line.startswith("RESULT "):
